@@ -40,14 +40,15 @@ DECODENAME_ENSURES
 
 /* the form USED in unit dns_rdata: the same clauses (same macros) plus a ghost that remembers the returned offset, so that
  * the callers' contracts can name "the offset where the name ended" (G_name_end) instead of subtracting from their own
- * result (measured: the backward form `U16BE(data, ret - 10)` costs > 400 s, the forward form `U16BE(data, G_name_end)` 10 s).
+ * result (and G_name_start: where it was asked to decode) (measured: the backward form `U16BE(data, ret - 10)` costs > 400 s, the forward form `U16BE(data, G_name_end)` 10 s).
  * G_name_end is verification-only state: no extracted code reads or writes it, so adding the write changes no behaviour
  * (trusted step, listed in trusted_base). */
-size_t G_name_end;
+size_t G_name_end;      /* ghost: what the last decodeName call returned */
+size_t G_name_start;    /* ghost: the offset the last decodeName call was asked to decode at */
 size_t decodeName_use_contract(const uint8_t *data, size_t offset, size_t size, iora_ostr *name)
 DECODENAME_REQUIRES
-__CPROVER_assigns(iora_exc, *name, G_name_end)
+__CPROVER_assigns(iora_exc, *name, G_name_end, G_name_start)
 DECODENAME_ENSURES
-__CPROVER_ensures(G_name_end == __CPROVER_return_value)
+__CPROVER_ensures(G_name_end == __CPROVER_return_value && G_name_start == offset)
 ;
 #endif
